@@ -89,7 +89,18 @@ func (g *G) Amount(label string, ref sdkmath.Int) sdkmath.Int {
 	if !ref.IsPositive() {
 		ref = sdkmath.NewInt(1_000_000)
 	}
-	switch g.Int(label+"/class", 0, 12) {
+	switch g.Int(label+"/class", 0, 13) {
+	case 13:
+		// everything but a dust remainder (1 .. 1e13 base units, log-uniform): a close / exit / unbond of this
+		// size leaves a position or balance whose value rounds to zero in later pay-outs
+		dust := sdkmath.NewInt(int64(g.Int(label+"/rem", 1, 9)))
+		for i, n := 0, g.Int(label+"/remexp", 0, 12); i < n; i++ {
+			dust = dust.MulRaw(10)
+		}
+		if dust.GTE(ref) {
+			return maxInt(ref.SubRaw(1), sdkmath.OneInt())
+		}
+		return ref.Sub(dust)
 	case 12:
 		// exact simple fractions / multiples of the reference: the reserve ratio before/after becomes
 		// exactly 2, 3/2, 4/3, 1/2, 1/3 ... (special-cased values of the power / logarithm routines)
